@@ -661,3 +661,15 @@ func replay(c *mc.Ctx, raw json.RawMessage) {
 		}
 	}
 }
+
+// Exported for the schedule part (sched/c09s), which serves the same dirty / probe requests on several
+// connections of one engine under the controlled scheduler.
+const DirtyReq, DirtyReqClose, ProbeReq = dirtyReq, dirtyReqClose, probeReq
+
+func Dump(ctx *app.RequestContext) []string      { return dump(ctx) }
+func ApplyOp(ctx *app.RequestContext, op string) { applyOp(ctx, op) }
+func Diff(a, b []string) []string                { return diff(a, b) }
+func ReducedOps() []string {
+	ops, _ := alphabet()
+	return reducedOps(ops)
+}
